@@ -391,13 +391,21 @@ Definition obs_state (x : sx) : sx := SL (tl (get_list x)).
 Definition obs_err (x : sx) : bool := get_bool (field "err" (get_list x)).
 Definition obs_debug (x : sx) : bool := get_bool (field "debug" (get_list x)).
 
+(* is this Reconfigure argument invalid? decided by the SPECIFICATION (it has at least one violation),
+   never by the implementation's own verdict or a generator label *)
+Definition spec_invalid (v : sx) : bool :=
+  match dec_config v with
+  | Some c => negb (match violations ace ip6 psl c with [] => true | _ => false end)
+  | None => false
+  end.
+
 Fixpoint c08_ok (prev : sx) (ops : list sx) (obs : list sx) : bool :=
   match ops, obs with
   | o :: ops', x :: obs' =>
       (match o with
-       | SL [SY n; v; SY lbl] =>
-           (* a Reconfigure labelled invalid must fail and leave every observable as it was *)
-           if beqb n (b "reconf") && beqb lbl (b "invalid")
+       | SL (SY n :: v :: _) =>
+           (* a Reconfigure with an invalid Config must return an error and leave every observable as it was *)
+           if beqb n (b "reconf") && spec_invalid v
            then obs_err x && sx_eqb (obs_state prev) (obs_state x) else true
        | _ => true
        end) && c08_ok x ops' obs'
